@@ -90,13 +90,13 @@ def emit_param_str(
                     )
                     if emit_type and (_param.get("typ") or name != "return_type")
                     else None,
-                    _fill(
-                        indent(
+                    indent(
+                        _fill(
                             set_default_doc(
                                 (name, _param), emit_default_doc=emit_default_doc
-                            )[1]["doc"],
-                            tab,
-                        )
+                            )[1]["doc"]
+                        ),
+                        tab,
                     )
                     if emit_doc and _param.get("doc")
                     else None,
